@@ -281,7 +281,7 @@ package recordio
 //@   assumed-frame
 //@   // (frame assumed: the parser reads through the byte reader it is handed - its counters and its hash state - and nothing else)
 //@   modifies hsum(*), bytes(*), reader.*
-//@   props C12 C04 C09
+//@   props C12 C04 C09 C07 C13
 //@   replay recordio_damage
 //@   bounded recordio_damage 5-record files, 2 (quick) or 4 (thorough) compression types: every truncation length, every single-byte alteration (255 values) of every record header byte, both readers; file header codes 0..6 x 0..5
 //@   exit [C12:magic-number-checked] err == nil ==> callres(binary.ReadUvarint, 0, 0) == 1246865
@@ -291,11 +291,14 @@ package recordio
 //@   exit [C12:checksum-field-minimally-encoded] err == nil && 0 <= callres(checksumByteReader.Count, 0, 0) && callres(checksumByteReader.Count, 0, 0) <= 64 &&
 //@        0 <= callres(checksumByteReader.Count, 1, 0) && callres(checksumByteReader.Count, 1, 0) <= 64 ==>
 //@        callres(checksumByteReader.Count, 1, 0) - callres(checksumByteReader.Count, 0, 0) == uvlen(callres(binary.ReadUvarint, 3, 0))
-//@   exit [C12:read-errors-propagate] (called(binary.ReadUvarint, 0) && callres(binary.ReadUvarint, 0, 1) != nil ==> err != nil) &&
-//@        (called(binary.ReadUvarint, 1) && callres(binary.ReadUvarint, 1, 1) != nil ==> err != nil) &&
-//@        (called(binary.ReadUvarint, 2) && callres(binary.ReadUvarint, 2, 1) != nil ==> err != nil) &&
-//@        (called(binary.ReadUvarint, 3) && callres(binary.ReadUvarint, 3, 1) != nil ==> err != nil) &&
-//@        (called(checksumByteReader.ReadByte, 0) && callres(checksumByteReader.ReadByte, 0, 1) != nil ==> err != nil)
+//@   // a header cut by the end of the file has to stay recognisable as io.EOF / io.ErrUnexpectedEOF: the log replay accepts a torn
+//@   // tail of the newest file through exactly these errors (C07, C13, C02)
+//@   exit [C12,C07,C13,C02:read-errors-propagate-with-their-identity]
+//@        (called(binary.ReadUvarint, 0) && callres(binary.ReadUvarint, 0, 1) != nil ==> err != nil && errIs(err, callres(binary.ReadUvarint, 0, 1))) &&
+//@        (called(binary.ReadUvarint, 1) && callres(binary.ReadUvarint, 1, 1) != nil ==> err != nil && errIs(err, callres(binary.ReadUvarint, 1, 1))) &&
+//@        (called(binary.ReadUvarint, 2) && callres(binary.ReadUvarint, 2, 1) != nil ==> err != nil && errIs(err, callres(binary.ReadUvarint, 2, 1))) &&
+//@        (called(binary.ReadUvarint, 3) && callres(binary.ReadUvarint, 3, 1) != nil ==> err != nil && errIs(err, callres(binary.ReadUvarint, 3, 1))) &&
+//@        (called(checksumByteReader.ReadByte, 0) && callres(checksumByteReader.ReadByte, 0, 1) != nil ==> err != nil && errIs(err, callres(checksumByteReader.ReadByte, 0, 1)))
 //@   exit [C12,C04:returns-the-decoded-fields] err == nil ==> payloadSizeUncompressed == callres(binary.ReadUvarint, 1, 0) &&
 //@        payloadSizeCompressed == callres(binary.ReadUvarint, 2, 0) && (recordNilBool <==> callres(checksumByteReader.ReadByte, 0, 0) == 1)
 
